@@ -3,12 +3,26 @@
 import json
 
 CLAIMED = {
+ 'C02': ('proof', 'Theorems: results modulo 2^size, add carry (word/byte), word add overflow formula = signed overflow, borrow (incl. sign-extension preserving unsigned order), compare flags at each size, truncating division/remainder, MIN/-1 wraps, zero divide faults before any write, shift results for every count, opcode -> arm; model tied to the code on every data-processing opcode x operand forms x boundary/random values x flags.',
+         'Coq proof of the arithmetic of each dispatch arm + differential correspondence over all ALU opcodes', 'DESIGN.md 7 C02'),
+ 'C05': ('proof', 'The branch/return conditions are translated from the source on every run and proved equal to the architected predicate for all 42 opcodes x 16 flag states; the model executes exactly that predicate with the prescribed PC/SP effect; exhaustive correspondence over opcode x flags x displacements plus an independent architected-predicate monitor.',
+         'Coq proof over predicates regenerated from the source + exhaustive differential correspondence', 'DESIGN.md 7 C05'),
+ 'C08': ('proof', 'Payload-polymorphic theorems by induction over all histories: delivered-while-ready ++ pipeline is an in-order subsequence of queued (no invention, duplication, reordering), loss only by flagged overrun / receiver reset / unready read, overrun flag sticky, FIFO refinement, invariant reachable; correspondence on receive-path histories incl. exhaustive short ones and fill x command x refill scenarios; conservation monitor.',
+         'Coq proof by induction over port-operation histories (ghost queues) + differential correspondence + monitor', 'DESIGN.md 7 C08'),
+ 'C09': ('proof', 'Theorems: TxRDY implies empty holding register; gated writes reach the host queue exactly once in order (polled ++ pipeline = written) over all histories without reset-tx/loop-back; poll returns none iff empty; loop-back delivers to own receiver and never to the host; correspondence + monitor.',
+         'Coq proof by induction over port-operation histories + differential correspondence + monitor', 'DESIGN.md 7 C09'),
  'C10': ('proof', 'Theorems over the model for all addresses (routing = documented map, no-device no-effect, device frame, no crash) plus routing translated from the source on every run; model tied to the code by differential runs (boundaries, aliases, stride of the address space, random histories) and a flat-memory monitor.',
          'Coq proof (routing by interval reasoning, frames) + translator + differential correspondence', 'DESIGN.md 7 C10'),
  'C11': ('proof', 'Theorems: big-endian composition, exact-bytes writes, read-back, unaligned faults unchanged, ROM writes rejected and ROM unchanged by any guest write, fetch = data bytes; correspondence on mixed-width histories with a flat byte-array monitor.',
          'Coq proof over the sparse-map memory + differential correspondence + flat-array monitor', 'DESIGN.md 7 C11'),
+ 'C14': ('proof', 'Status invariant (RxRDY => data and enabled receiver, TxRDY => empty holding register) over all histories of every DUART operation; no phantom data; no lost wake-up (closed form of get_interrupt); no stuck request after drain or disable; correspondence on random register-level histories; monitors.',
+         'Coq proof of a DUART invariant over all operation histories + differential correspondence + monitors', 'DESIGN.md 7 C14'),
  'C15': ('proof', 'Theorems: frame = RAM[4*reg, +102400) for every register value (no panic), aligned accesses never straddle the window, dirty = landed-write-since-last-fetch by induction over all histories, invariant reachable; correspondence + independent window/dirty monitor.',
          'Coq proof by induction over write/fetch histories + differential correspondence + monitor', 'DESIGN.md 7 C15'),
+ 'C17': ('proof', 'Theorems (virtual clock): source baud tables = model tables, every valid clock-select code x both sets gives 8..12 bit times of the data-sheet rate, receive transfers only after the deadline and re-armed one character time later, due byte moves on the next service, vertical blank only after its deadline and re-armed 1/60 s later, withdrawn on acknowledge; correspondence on pacing runs; partial: std::time::Instant of the unguarded build is not modelled.',
+         'Coq proof over the timed DUART model (virtual clock) + differential correspondence + pacing monitor', 'DESIGN.md 7 C17'),
+ 'C20': ('proof', 'Theorems: mouse registers return the last reported coordinates and nothing else changes them, every button event raises the request, buttons 0-2 show level and change bit, other buttons only raise the request, the request persists across every operation but the IPCR read; correspondence + monitor.',
+         'Coq proof over bus and DUART model + differential correspondence + monitor', 'DESIGN.md 7 C20'),
 }
 NOTE = 'Trusted: Coq kernel, tools/gen.py, extraction (ExtrOcamlBasic only) + ocaml/driver.ml, harness + cfg hooks, Rust semantics as modelled. See DESIGN.md section 9.'
 
